@@ -266,8 +266,9 @@ def _models(cfg):
             return (0, 0)
         reg(W._get_isolated_junctions_and_links, get_isolated,
             verified_by="wntr.sim.core:WNTRSimulator._get_isolated_junctions_and_links (contracts/c09_isolation.py)")
-        for f in (hyd.update_model_for_controls, mparam.source_head_param, mparam.expected_demand_param):
-            reg(f, lambda i, a, k: None)
+        reg(hyd.update_model_for_controls, lambda i, a, k: None, verified_by="wntr.sim.hydraulics:update_model_for_controls (contracts/c05_updater.py)")
+        for f in (mparam.source_head_param, mparam.expected_demand_param):
+            reg(f, lambda i, a, k: None, verified_by="contracts/params.py, contracts/c01_results.py")
 
         def tank_heads(interp, args, kw):
             wn = args[0]
